@@ -89,7 +89,7 @@ package responsemanager
 //@ func ResponseManager.processUpdate
 //@   lenient
 //@   requires invRS(rm)
-//@   modifies rm.inProgressResponses[requestID].state, rm.inProgressResponses[requestID].updates, alloc
+//@   modifies rm.inProgressResponses[requestID].state, rm.inProgressResponses[requestID].updates, alloc, nPush
 //@   ensures invRS(rm) && othersSameRS(rm, requestID)
 
 //@ func ResponseManager.newRequest
@@ -108,7 +108,7 @@ package responsemanager
 //@ func ResponseManager.processRequests
 //@   lenient
 //@   requires invRS(rm)
-//@   modifies rm.inProgressResponses[*], inProgressResponseStatus.state, inProgressResponseStatus.updates, prot, alloc
+//@   modifies rm.inProgressResponses[*], inProgressResponseStatus.state, inProgressResponseStatus.updates, prot, alloc, nPush, nRemove
 //@   ensures invRS(rm)
 //@   callsite ResponseManager.abortRequest: assert mine(rm, p, $requestID)
 //@   callsite ResponseManager.processUpdate: assert mine(rm, p, $requestID)
